@@ -113,8 +113,12 @@ func clDefaultText(def, ty string) (string, bool) {
 
 func clReqText(req string) (string, bool) {
 	switch req {
-	case "true", "false":
+	case "true", "false", "True", "TRUE", "False", "yes", "on", "y":
 		return req, true
+	case "qtrue":
+		return "'true'", true
+	case "one":
+		return "1", true
 	case "expr":
 		return "${{ github.event_name == 'push' }}", true
 	}
